@@ -36,7 +36,8 @@ Definition cengine := engine cond action.
 Inductive hop :=
 | HExecute (t : Z) (maxc : nat)
 | HSetFocus (g : Z) | HPopFocus | HClearFocus | HResetNoLoop
-| HEnable (name : Z) (b : bool).
+| HEnable (name : Z) (b : bool)
+| HActivate (g : Z)   (* RustRuleEngine::activate_agenda_group: the API counterpart of the ActivateAgendaGroup action; documented meaning: the group gets the focus, once *).
 
 Definition set_enabled (e : cengine) (n : Z) (b : bool) : cengine :=
   {| rules := map (fun r => if r_name r =? n
@@ -57,6 +58,7 @@ Definition hstep (es : cengine * store) (o : hop) : (cengine * store) * sx :=
   | HClearFocus => ((with_ag e (clear_focus (ag e)), s), L [A main])
   | HResetNoLoop => (({| rules := rules e; fired_global := []; ag := ag e; act_fired := act_fired e; queue := queue e |}, s), L [A (active (ag e))])
   | HEnable n b => ((set_enabled e n b, s), L [A (active (ag e))])
+  | HActivate g => ((with_ag e (set_focus (ag e) g), s), L [A (active (set_focus (ag e) g))])
   end.
 
 Fixpoint hrun (es : cengine * store) (ops : list hop) : list sx :=
@@ -93,6 +95,7 @@ Definition dec_hop (s : sx) : option hop :=
   | L [A 1; A g] => Some (HSetFocus g) | L [A 2] => Some HPopFocus | L [A 3] => Some HClearFocus
   | L [A 4] => Some HResetNoLoop
   | L [A 5; A n; b] => option_map (HEnable n) (getB b)
+  | L [A 6; A g] => Some (HActivate g)
   | _ => None end.
 
 Definition run_sx (c : sx) : sx :=
